@@ -1513,6 +1513,10 @@ ASMJIT_FAVOR_SPEED Error X86RAPass::rewrite() noexcept {
               ASMJIT_ASSERT(work_reg != nullptr);
 
               RAStackSlot* slot = work_reg->stack_slot();
+              if (ASMJIT_UNLIKELY(!slot)) {
+                // `work_reg_as_mem()` cannot report that creating the home slot failed - catch it here.
+                return make_error(Error::kOutOfMemory);
+              }
               int32_t offset = slot->offset();
 
               mem._set_base(_sp.reg_type(), slot->base_reg_id());
